@@ -27,15 +27,20 @@ func checkC06(c *Ctx, r *Report) {
 				return false
 			}
 			lk, ok := e.Tuple.(*ssa.Lookup)
-			return ok && isLoadOfField(emT + "." + field)(strip2(lk.X))
+			return ok && isLoadOfField(emT+"."+field)(strip2(lk.X))
 		}
 	}
 	isRet := func(in ssa.Instruction) bool { _, ok := in.(*ssa.Return); return ok }
 	mapIns := func(field string) func(ssa.Instruction) bool {
-		return func(in ssa.Instruction) bool { _, ok := in.(*ssa.MapUpdate); return ok && isFieldWrite(in, emT+"."+field) }
+		return func(in ssa.Instruction) bool {
+			_, ok := in.(*ssa.MapUpdate)
+			return ok && isFieldWrite(in, emT+"."+field)
+		}
 	}
 	mapDel := func(field string) func(ssa.Instruction) bool {
-		return func(in ssa.Instruction) bool { return isCallTo(in, "builtin.delete") && isFieldWrite(in, emT+"."+field) }
+		return func(in ssa.Instruction) bool {
+			return isCallTo(in, "builtin.delete") && isFieldWrite(in, emT+"."+field)
+		}
 	}
 
 	// ---- R1 ---------------------------------------------------------------
@@ -136,7 +141,7 @@ func checkC06(c *Ctx, r *Report) {
 		})
 		sends := findInstrs(f, func(in ssa.Instruction) bool {
 			s, ok := in.(*ssa.Send)
-			return ok && isLoadOfField(emT + ".peerConnectednessCh")(strip2(s.Chan))
+			return ok && isLoadOfField(emT+".peerConnectednessCh")(strip2(s.Chan))
 		})
 		q := &Cut{Fn: f, From: adds, Sep: inSet(sends), Target: isRet}
 		r2.mustPass(f, a.name+": every path pushes the "+a.evType+" to the run loop", q, len(adds))
@@ -207,7 +212,10 @@ func checkC06(c *Ctx, r *Report) {
 			r3.guard(f, "wg.Add", []ssa.Instruction{a}, "!closed", edgeBool(isLoadOfField(emT+".closed"), false), nil)
 		}
 		// wg.Done deferred right after
-		defs := findInstrs(f, func(in ssa.Instruction) bool { _, ok := in.(*ssa.Defer); return ok && isCallTo(in, "(*sync.WaitGroup).Done") })
+		defs := findInstrs(f, func(in ssa.Instruction) bool {
+			_, ok := in.(*ssa.Defer)
+			return ok && isCallTo(in, "(*sync.WaitGroup).Done")
+		})
 		r3.Check(len(defs) == 1, fnKey(f)+": defer wg.Done()", f.Pos(), 1, "", "", "")
 	}
 
@@ -263,7 +271,10 @@ func checkC06(c *Ctx, r *Report) {
 		for _, g := range findInstrs(f, func(in ssa.Instruction) bool { _, ok := in.(*ssa.Go); return ok }) {
 			if cl := g.(*ssa.Go).Call.StaticCallee(); cl != nil && len(callsIn(cl, em("RemoveConn"))) == 1 {
 				goRem = append(goRem, g)
-				defs := findInstrs(cl, func(in ssa.Instruction) bool { _, ok := in.(*ssa.Defer); return ok && isCallTo(in, "(*sync.WaitGroup).Done") })
+				defs := findInstrs(cl, func(in ssa.Instruction) bool {
+					_, ok := in.(*ssa.Defer)
+					return ok && isCallTo(in, "(*sync.WaitGroup).Done")
+				})
 				w, _ := (&Cut{Fn: cl, Target: callPred(em("RemoveConn")), Sep: inSet(defs)}).Run(c)
 				r5.Check(len(defs) == 1 && w == "", "doClose goroutine: defer refs.Done() before RemoveConn", cl.Pos(), 2, "", "Swarm.Close could return before Disconnected was delivered", "")
 			}
@@ -284,7 +295,9 @@ func checkC06(c *Ctx, r *Report) {
 			return fl != nil && fl.Name() == "refs"
 		})
 		ceClose := findInstrs(f, callPred(em("Close")))
-		emClose := findInstrs(f, func(in ssa.Instruction) bool { return isCallTo(in, "(core/event.Emitter).Close", "(io.Closer).Close") && recvIsField(in.(ssa.CallInstruction), swarmP+".Swarm.emitter") })
+		emClose := findInstrs(f, func(in ssa.Instruction) bool {
+			return isCallTo(in, "(core/event.Emitter).Close", "(io.Closer).Close") && recvIsField(in.(ssa.CallInstruction), swarmP+".Swarm.emitter")
+		})
 		ok := len(wait) == 1 && len(ceClose) == 1 && len(emClose) == 1
 		if ok {
 			w1, _ := (&Cut{Fn: f, Target: inSet(ceClose), Sep: inSet(wait)}).Run(c)
@@ -316,7 +329,7 @@ func checkC06(c *Ctx, r *Report) {
 			if inner.Blocking {
 				inner = sels[0].(*ssa.Select)
 			}
-			okDrain = !inner.Blocking && len(inner.States) == 1 && isLoadOfField(emT + ".peerConnectednessCh")(strip2(inner.States[0].Chan))
+			okDrain = !inner.Blocking && len(inner.States) == 1 && isLoadOfField(emT+".peerConnectednessCh")(strip2(inner.States[0].Chan))
 		}
 		r5.Check(okDrain, em("runEmitter")+": pending events are drained after cancellation", f.Pos(), 2, "", "events queued before Close are dropped: the last published state can be wrong", "")
 	}
